@@ -42,6 +42,7 @@ def check(repo, rep, tier):
     ti = rp.r_category_table(repo, rep, 'R2.5')
     rp.r_call_locals(repo, rep, 'R2.5')
     rp.r_score_buffers(repo, rep, 'R2.2')   # the candidates of a token come from the matrix the caller supplied, read with its real layout
+    rp.r_config_plumbing(repo, rep, 'R2.2')  # 'admitted' is relative to the beam the caller asked for: pruning_size / beta / use_beta reach the search as given
     if ti:
         rp.r_callbacks(repo, rep, 'R2.5')
         rp.r_sentence_loop(repo, rep, 'R2.4', ti)
